@@ -264,6 +264,9 @@ func Worker(t *testing.T) {
 				}
 			}
 		}
+		if os.Getenv("VERIF_YTRACE") == "sites" {
+			os.WriteFile(fmt.Sprintf("/tmp/sites-%d.txt", os.Getpid()), []byte(strings.Join(YTrace, "\n")), 0o644)
+		}
 		if os.Getenv("VERIF_SELFTEST") != "" {
 			// determinism self-test: the recording of a run, replayed, must give the same event log
 			st := o.Steps
